@@ -23,6 +23,7 @@ Step(line, f) == IF f \in DOMAIN line THEN line[f] ELSE "missing"
 Fwd(line) ==
    LET d == line.d  d3 == line.d3 IN
    Ds("v3_describes_another_api", "fwd", ApiDiff(Api2(d), Api3(d3)))
+   \cup Ds("v3_states_another_serialisation", "fwd", SerDiffs(Api2(d), Api3(d3)))
    \cup (IF ServersFwdOK(d, d3) THEN {}
          ELSE {V("v3_servers", "fwd", <<"servers">>, Srv2(d, TRUE), A(SetToSeq({S(u) : u \in Servers3(d3)})))})
 
@@ -32,6 +33,7 @@ Back(line) ==
        names == CompNames2(d) \cup CompNames2(b) \cup CompNames3(d3)
        badRefs == {r \in AllRefs(b) : ~V2RefOK(r, names)}
    IN Ds("v2_again_describes_another_api", "back", ApiDiff(Api2(d), Api2(b)))
+      \cup Ds("v2_again_states_another_serialisation", "back", SerDiffs(Api2(d), Api2(b)))
       \cup Ds("v2_again_servers", "back", Diff(Srv2(d, withSchemes), Srv2(b, withSchemes), <<"servers">>))
       \cup {V("v2_again_reference_not_v2", "back", <<"$ref">>, Absent, S(r)) : r \in badRefs}
 
@@ -46,7 +48,7 @@ InputKept(line) ==
 
 Violations(line) ==
    IF Step(line, "un") # "ok" THEN Plain("v2_document_not_read_" \o Step(line, "un"))
-   ELSE Ds("realised_differs", "realise", ApiDiff(Api2(line.d), Api2(line.rd)))
+   ELSE Ds("realised_differs", "realise", ApiDiff(Api2(line.d), Api2(line.rd)) \cup SerDiffs(Api2(line.d), Api2(line.rd)))
         \cup InputKept(line)
         \cup (IF Step(line, "to3") # "ok" THEN Plain("to_v3_" \o Step(line, "to3"))
               ELSE (IF line.val # "ok" THEN Plain("v3_invalid_" \o line.val) ELSE {})
